@@ -143,7 +143,11 @@ Qed.
 Ltac keeps := let s := fresh in intro s; unfold on_cur; simpl; try (destruct (dcache s)); simpl; auto.
 
 Lemma WB_load_dc : WB load_dc.
-Proof. apply WB_upd; keeps. Qed.
+Proof.
+  intros s s' r H. unfold load_dc in H. destruct (dcache s).
+  - inversion H; apply Fr_refl.
+  - revert H. generalize s s' r. apply WB_ev, WB_upd; keeps.
+Qed.
 
 Lemma WB_stored_rows : forall d, WB (stored_rows d).
 Proof. intro d; apply WB_upd; keeps. Qed.
@@ -201,7 +205,7 @@ Lemma WB_xfer_ds : forall d, WB (xfer_ds d).
 Proof. intro d. unfold xfer_ds. apply (WB_if (fun s => mem d (recs (cur s))) ret); [apply WB_ret | wb]. Qed.
 
 Lemma do_transfer_unfold : forall d, do_transfer shipped d =
-  butler_txn shipped (ev (guard (fun s => negb (has_ds d s) || mem d (xf (cur s)))) ;;
+  butler_txn shipped (load_dc ;; ev (guard (fun s => negb (has_ds d s) || mem d (xf (cur s)))) ;;
                       upd (on_cur (fun x => up_xf (add d) (up_ds (add d) x))) ;; with_ds shipped (xfer_ds d)).
 Proof. reflexivity. Qed.
 
@@ -282,7 +286,7 @@ Lemma ingest_registry_atomic_p : forall m d s s' h,
 Proof.
   intros m d s s' h H C. simpl in H. unfold do_ingest in H. eapply butler_txn_atomic; eauto.
   repeat first [ apply WB_bind | apply WB_ev | apply WB_ret | apply WB_guard | apply WB_with_ds | apply WB_transfer
-               | apply WB_stored_rows | (apply WB_upd; keeps) ].
+               | apply WB_load_dc | apply WB_stored_rows | (apply WB_upd; keeps) ].
 Qed.
 
 Lemma transfer_registry_atomic_p : forall d s s' h,
@@ -290,7 +294,7 @@ Lemma transfer_registry_atomic_p : forall d s s' h,
 Proof.
   intros d s s' h H C. simpl in H. rewrite do_transfer_unfold in H. eapply butler_txn_atomic; eauto.
   repeat first [ apply WB_bind | apply WB_ev | apply WB_ret | apply WB_guard | apply WB_with_ds | apply WB_xfer_ds
-               | (apply WB_upd; keeps) ].
+               | apply WB_load_dc | (apply WB_upd; keeps) ].
 Qed.
 
 Lemma import_registry_atomic_p : forall d s s' h,
@@ -298,7 +302,7 @@ Lemma import_registry_atomic_p : forall d s s' h,
 Proof.
   intros d s s' h H C. simpl in H. unfold do_import in H. eapply butler_txn_atomic; eauto.
   repeat first [ apply WB_bind | apply WB_ev | apply WB_ret | apply WB_guard | apply WB_with_ds | apply WB_reg_undo
-               | apply WB_stored_rows | (apply WB_upd; keeps) ].
+               | apply WB_load_dc | apply WB_stored_rows | (apply WB_upd; keeps) ].
 Qed.
 
 (* the stacks after ANY program, outcome and fault: SQL blocks all closed again, datastore pointer back where it was *)
